@@ -21,6 +21,10 @@ CLAIMS = {
             NOTE_ENGINE + "; index type and shard count are not parameters of the engine model (one ordered map); byte-identical layout is not part of the theorem"),
     "C17": ("Theorems C17_size_equation / _with_merges / C17_keynum_exact: at every step of every history (an invariant proved by induction over operations, through batches, rotations and restarts under arbitrary configurations) DiskSize = ReclaimableSize + bytes of the live records and KeyNum = number of live keys; the check compares Stat, every live position and every file size with the model after each step and checks the equation directly on the implementation",
             NOTE_ENGINE + "; the size equation across an adopting restart (hint path) and the per-file size limit are not yet theorems: they are covered by the correspondence run and the oracle only"),
+    "C03": ("Theorems C03_*: the crash image of any reachable state with the active file cut at ANY length (rotated files are flushed: C13) opens under any configuration to the specification state after some prefix of the history; operations whose records survive are included; nothing is lost without a cut - proved via 'every prefix of the log denotes a prefix of the history' (unbounded histories, batches of any size); the check takes a crash image at every I/O event of generated workloads (no cut / durable cut / byte cuts), opens each twice with the real Open and with the model and applies a prefix-of-history oracle",
+            NOTE_ENGINE + "; crash model of the property (suffix loss, intact prefix, atomic durable metadata ops); in-operation crash instants and MMap are covered by the correspondence run, not by the theorems"),
+    "C04": ("Theorems C04_*: the log chunk of a batch (tagged records in any number of pieces + one batch-finished record) is atomic under replay - any prefix leaves the map unchanged, the whole applies the whole batch - hence no crash splits a batch; a committed batch survives every clean restart; a Sync batch is flushed including its sealing record; crash images at every I/O event inside and after Commit are checked against {before, after} on the real engine and compared with the model",
+            NOTE_ENGINE + "; uniqueness of batch ids across a crash is assumed (snowflake + wall clock)"),
     "C05": ("Theorems C05_*: a batch behaves as a private copy of the map installed at Commit (read-your-writes, in-order application, put-delete-put ends present), Commit succeeds and marks the batch committed, a committed batch rejects Put/Delete/Get/Commit without changing the database - for every database state, every sequence of batch operations incl. mid-batch flushes; correspondence run on batch-heavy scripts with a layered reference oracle",
             NOTE_ENGINE + "; the staging hash index is abstracted to key lookup; a fatal double unlock is observable only in the correspondence run"),
     "C11": ("Coq theorems (props/C11.v, closed under the global context) for every history of a data file, every record length and every block offset, about an executable model that is run against package datafile on generated histories on every check (bytes, positions, sizes, scans, random reads compared)",
